@@ -247,8 +247,11 @@ CLAIMED = {
              "collector for every tx (accepted, rejected, failing, reverting, multi-message), a failing tx changes only the fee and the "
              "nonce, collector gain equals the signer's payment. The implementation's total supply is observed constant by the "
              "correspondence run.",
-        note="Trusted: Lean kernel; harness; EVM interpreter as a parameter. Internal value moves by contracts, self-destruct and "
-             "precompile bank moves are outside this model (C03/C04).",
+        note="The EVM run is a parameter of the model that moves value between accounts; for transactions that undo a frame containing a "
+             "Nibiru precompile call the REAL StateDB does not conserve (known finding C05-undone-precompile-frame, same root cause as the "
+             "C04 findings): found by the evmsupply run (generated programs with value transfers, self-destructs and FunToken "
+             "precompile calls; supply observed per tx). The StateDB bookkeeping that decides what reaches the bank is pinned by the "
+             "sdb correspondence, which is part of this check. Trusted: Lean kernel; harness.",
         technique="Lean 4 proof (floor-division inequalities, sum-preservation over account lists) + differential correspondence over ABCI",
         ref="§7 C05"),
     "C04": dict(
